@@ -13,9 +13,12 @@
 //   L t                     toLocalTime(t, &off)
 //   F y m d h mi s post     fromLocalTime
 //   R t                     toLocalTime(t) then fromLocalTime(.., false) and (.., true)
+//   DI lo hi                Date(j).toIsoString() for every day number lo..hi (# strftime %Y-%m-%d)
+//   TA us t m secs delta hi lo   secondsSinceEpoch(us), fromUnixTime(t, m), addTime(us, secs), timeDifference(hi, lo)*1e6 (# the double)
 //   TS us                   Timestamp::toString | toFormattedString(true) | toFormattedString(false)
 //   BE k x                  hostToNetwork{16,32,64} as memory bytes, and back
 //   IP texthex port flag p6hex n6hex     InetAddress(ip, port, ipv6)
+//   IPS texthex port flag scope p6hex n6hex   the same, then setScopeId(scope); sin6_scope_id printed as scope=
 //   IPP port lo v6 n6hex    InetAddress(port, loopbackOnly, ipv6)
 //   P4 texthex              sockets::fromIpPort(AF_INET) + toIp
 //   TZB hex                 the bytes as a file through detail::readTimeZoneFile: "tzif ok <offs> <trans>" | "tzif fail"
@@ -31,6 +34,7 @@
 #include <arpa/inet.h>
 #include <endian.h>
 #include <stdlib.h>
+#include <math.h>
 #include <unistd.h>
 
 #define private public
@@ -306,6 +310,29 @@ int main()
       snprintf(c, sizeof c, "%s.%06lld", b, static_cast<ll>(us % 1000000));
       printf("TS %s|%s|%s # %s|%s\n", ts.toString().c_str(), ts.toFormattedString(true).c_str(), ts.toFormattedString(false).c_str(), c, b);
     }
+    else if (k == "DI")
+    {
+      int lo = atoi(w[1].c_str()), hi = atoi(w[2].c_str());
+      for (int j = lo; j <= hi; ++j)
+      {
+        time_t t = static_cast<time_t>(j - kJ1970) * 86400;
+        struct tm g;
+        ::gmtime_r(&t, &g);
+        char b[64];
+        ::strftime(b, sizeof b, "%Y-%m-%d", &g);
+        printf("DI %d %s # %s\n", j, Date(j).toIsoString().c_str(), b);
+      }
+    }
+    else if (k == "TA")
+    {
+      // TA us t m seconds delta hi lo: secondsSinceEpoch, fromUnixTime(t, m), addTime(us, seconds), timeDifference(hi, lo)
+      Timestamp a(atoll(w[1].c_str()));
+      Timestamp f = Timestamp::fromUnixTime(static_cast<time_t>(atoll(w[2].c_str())), atoi(w[3].c_str()));
+      Timestamp ad = addTime(a, strtod(w[4].c_str(), NULL));
+      double td = timeDifference(Timestamp(atoll(w[6].c_str())), Timestamp(atoll(w[7].c_str())));
+      printf("TA %lld %lld %lld %lld # %.17g\n", static_cast<ll>(a.secondsSinceEpoch()), static_cast<ll>(f.microSecondsSinceEpoch()),
+             static_cast<ll>(ad.microSecondsSinceEpoch()), static_cast<ll>(llround(td * 1e6)), td);
+    }
     else if (k == "BE")
     {
       int n = atoi(w[1].c_str());
@@ -328,6 +355,17 @@ int main()
       string text = vh::bytesOfSpec(w[1]);
       InetAddress a(text, static_cast<uint16_t>(atoi(w[2].c_str())), w[3] == "1");
       printf("IP %s # %s\n", showAddr(a).c_str(), platformAddr(text).c_str());
+    }
+    else if (k == "IPS")
+    {
+      string text = vh::bytesOfSpec(w[1]);
+      InetAddress a(text, static_cast<uint16_t>(atoi(w[2].c_str())), w[3] == "1");
+      a.setScopeId(static_cast<uint32_t>(strtoul(w[4].c_str(), NULL, 10)));
+      const struct sockaddr* sa = a.getSockAddr();
+      char sc[32] = "-";
+      if (sa->sa_family == AF_INET6)
+        snprintf(sc, sizeof sc, "%u", reinterpret_cast<const struct sockaddr_in6*>(sa)->sin6_scope_id);
+      printf("IPS %s scope=%s # %s\n", showAddr(a).c_str(), sc, platformAddr(text).c_str());
     }
     else if (k == "IPP")
     {
